@@ -16,6 +16,7 @@ var (
 	verifBodies [][]byte
 	verifAnswer func(body []byte) (int, error)
 	errVerif413 = errors.New("verif: request entity too large")
+	errVerif500 = errors.New("verif: server error")
 )
 
 // replaces (*xhttp.Client).DoTimeout: captures the request body; the answer is scripted by the harness
@@ -134,10 +135,19 @@ func VerifH_C19_httpSplitOversize() {
 	p := &Plugin{config: &Config{BatchSize_: 4, SplitBatch: true}, avgEventSize: 16, mu: &sync.Mutex{}, encoder: newJSONEncoder(&JSONEncoderParams{})}
 	verifBodies = nil
 	var accepted [][]byte
+	// optionally the request carrying the last document fails once with a retryable error
+	failLast := vf.Choose("request-with-the-last-document-gets-500", 2) == 1 && big != n-1
 	verifAnswer = func(body []byte) (int, error) {
 		for _, l := range verifLines(body) {
 			if len(l) > 11 && string(l[len(l)-11:]) == `"big":true}` {
 				return 413, errVerif413
+			}
+		}
+		if failLast {
+			for _, l := range verifLines(body) {
+				if string(l) == docs[n-1] {
+					return 500, errVerif500
+				}
 			}
 		}
 		accepted = append(accepted, append([]byte(nil), body...))
@@ -146,7 +156,11 @@ func VerifH_C19_httpSplitOversize() {
 	batch := pipeline.NewPreparedBatch(events)
 	pipeline.VerifBatchMarkIterable(batch, true)
 	var wd pipeline.WorkerData
-	if err := p.out(&wd, batch); err != nil {
+	err := p.out(&wd, batch)
+	if failLast {
+		vf.Assert(err != nil, "retryable-failure-of-a-part-is-reported")
+	}
+	if err != nil {
 		return // retried as a whole
 	}
 	count := make([]int, n)
